@@ -26,25 +26,30 @@ RULE = ("one case = one generated Modelica model (connector classes with 1-3 pot
         "late merges of separately built sets, bridges, random pairs, self connections); non-trivial = at least two "
         "connect clauses and at least one connection set with three or more members or one merge of two existing sets; "
         "distinct = distinct model description")
-TRUSTED = ["value semantics for the shared OrderedDict objects of `flow_connections` (the model re-points every member at "
-           "the merged set; the correspondence exercises merges of existing sets in both directions)",
+TRUSTED = ["the heap reading of `flow_connections` in Model/Connect.lean (`Heap.step`: object identities, in-place `update`, "
+           "fresh object for an unknown key, identity de-duplication) is what the driver runs; its equality with the value reading "
+           "the other theorems use is proved (`heap_refines_value`, `heap_pass_eq_value_pass`), not assumed",
            "the linear canonicaliser of flat equations in harness/props/c09.py"]
-ASSUMPTIONS = ["connector variables are scalar Real (arrays of connectors / array variables are out of scope: the code marks them TODO)",
+ASSUMPTIONS = ["hierarchical models (streams hier, hier-open) go beyond the graph domain the property names; their reference is "
+               "the face-wise rule of the Modelica specification 9.2",
+               "connector variables are scalar Real (arrays of connectors / array variables are out of scope: the code marks them TODO)",
                "both ends of a connect clause have the same connector class; references are `c` or `comp.c`",
                "no expandable/stream/overdetermined connectors, no inner/outer components, no conditional components",
                "a top-level connector that occurs in a connect clause is left free (the property text: only flows in no connection are zero)"]
 
 SEP = G.SEP
 
-# Which rule takes flows off the "unconnected" list: "name" = the code as it stands (C09-F1 open),
-# "face" = the code with proposed_fixes/C09-1.diff.  The Lean model has both (theorems for both);
-# "auto" observes the real code once per run on a three-line nested model and records what it saw.
-POP_POLICY = "auto"
+# Which rule takes flows off the "unconnected" list: "face" = the code as it stands (fix 2598ca8 of
+# finding C09-F1), "name" = the code before that fix.  The Lean model has both (theorems for both).
+# "auto" would observe the real code once per run on a three-line nested model; it is not the default,
+# because a regression to pop-by-name must show up as a broken tie as well as an oracle violation.
+POP_POLICY = "face"
 _policy = {}
 
 
 def pop_policy(ctx):
     if POP_POLICY != "auto":
+        ctx.extra["pop_policy"] = POP_POLICY
         return POP_POLICY
     if "p" not in _policy:
         probe = ("connector P Real v; flow Real i; end P;\nmodel L P a; end L;\n"
@@ -271,7 +276,7 @@ def run_real(text, top):
     return {"raised": None, "forms": forms, "symbols": symbols, "flow_syms": flow_syms}
 
 
-def model_request(case, inst, policy="name"):
+def model_request(case, inst, policy="face"):
     # `vars` is the flattened symbol list of the left connector class as expand_connectors sees it:
     # flatten_symbols has already stripped `input`/`output` from symbols below the top level, and the
     # variables of a connector instance are always below the top level.
@@ -470,8 +475,9 @@ def run(ctx):
     for c in corpus.load("C09"):
         ctx.count("corpus")
         check_case(ctx, c["case"] if "case" in c else c, drv)
-    # the open known finding has its own small stream
-    for _ in range(3 if quick else 40):
+    # models of the class of the fixed finding C09-F1 (nested connector connected only as outside
+    # connector) keep their own small stream, so that every run exercises the fix
+    for _ in range(6 if quick else 80):
         check_case(ctx, G.gen_case(ctx.rng, "hier-open"), drv)
     # exhaustive sweep is deterministic; the quick tier takes a seed-dependent slice of it
     if quick:
@@ -488,6 +494,7 @@ def run(ctx):
         check_case(ctx, G.gen_case(ctx.rng, stream), drv)
         done += 1
     ctx.extra["generated_graphs"] = done
+    ctx.extra["run_s"] = round(45.0 - ctx.time_left() if quick else 600.0 - ctx.time_left(), 1)
 
 
 def search(ctx):
@@ -506,11 +513,12 @@ def replay(ctx, payload):
 MANIFEST = dict(
     level_text="Lean 4 theorems about an executable model of expand_connectors (connection sets = connected components of the "
                "edge graph for every edge order; potential equalities, signed flow sums, zero for unconnected flows; solution set "
-               "equal to the reference connection semantics over any additive commutative group, hence any field), tied to the "
+               "equal to the reference connection semantics over any additive commutative group, hence any field; Python's shared, "
+               "in-place updated set objects proved indistinguishable from set values; face-wise Modelica rule for hierarchical "
+               "models proved for the proposed fix and, under the no-open-nested-connector hypothesis, for the code as it is), tied to the "
                "real parse+flatten pipeline by a per-run differential correspondence on generated connection graphs and an exact "
                "Fraction row-space oracle on the real flat equations.",
-    level_note="Trusted: Lean kernel + standard axioms; the harness; value semantics for Python's shared OrderedDict objects "
-               "(exercised by the correspondence). The model, not the Python, is what the theorems are about.",
+    level_note="Trusted: Lean kernel + standard axioms; the harness. The model, not the Python, is what the theorems are about.",
     technique="Lean 4 proof (invariant by induction over the edge list) + model/implementation correspondence",
 )
-READY = False
+READY = True
